@@ -11,6 +11,7 @@ import (
 	"path/filepath"
 	"sort"
 	"strings"
+	"testing/synctest"
 	"time"
 	"unicode/utf8"
 
@@ -36,6 +37,12 @@ var wrongKeys = []string{"wrong", "", "secre", "secret2", "Secret", "secret\x00"
 func genC24(seed uint64, tier string) *Case {
 	g := NewRng(seed)
 	c := &Case{P: map[string]int64{"auth": int64(g.Intn(3))}}
+	if g.Intn(5) == 0 {
+		// another, authenticated client monitors the log at ERR level and stops reading; the agent
+		// then logs "mon" error lines (the monitor's queue holds 512): the request sequence below
+		// runs next to a stalled, possibly overflowing log stream
+		c.P["mon"] = int64(g.Pick(3, 200, 520, 700))
+	}
 	c.Steps = append(c.Steps, Step{Op: "conn"})
 	n := 4 + g.Intn(20)
 	hs := g.Intn(4) // when (if ever) the handshake tends to happen
@@ -69,7 +76,7 @@ func execC24(r *Run) {
 	}
 	c := NewCluster(r, 2)
 	defer c.StopAll()
-	as, err := startAgent(r, c, authKey, nil, NodeOpts{})
+	as, err := startAgentLog(r, c, authKey, nil, NodeOpts{}, r.C.P["mon"] != 0)
 	if err != nil {
 		r.Fail("setup", "setup", "%v", err)
 		return
@@ -77,6 +84,36 @@ func execC24(r *Run) {
 	defer as.stop()
 	if err := c.Start(1, NodeOpts{}); err != nil {
 		return
+	}
+	if n := int(r.C.P["mon"]); n != 0 {
+		mon := as.connect()
+		defer func() { mon.conn.Close(); mon.unstall() }()
+		mon.send("handshake", 1, map[string]any{"Version": 1})
+		if authKey != "" {
+			mon.send("auth", 2, map[string]any{"AuthKey": authKey})
+		}
+		mon.send("monitor", 3, map[string]any{"LogLevel": "ERR"})
+		mcur := 0
+		ok := false
+		for _, rec := range mon.take(&mcur) {
+			if rec.header && rec.seq == 3 && rec.err == "" {
+				ok = true
+			}
+		}
+		if !ok {
+			r.Fail("setup", "setup", "the monitoring client could not attach: %v", mon.records)
+			return
+		}
+		mon.stall()
+		for i := 0; i < n; i++ {
+			fmt.Fprintf(as.logw, "2026/01/01 00:00:00 [ERR] agent: simulated error line %d\n", i)
+		}
+		synctest.Wait()
+		r.Fault("stalled-monitor")
+		if n > 513 {
+			r.Fault("monitor-queue-overflow")
+		}
+		r.Logf("monitor attached at ERR and stalled; %d error lines logged", n)
 	}
 	g := NewRng(r.C.Seed ^ 0x24)
 	var cl *ipcClient
